@@ -479,7 +479,7 @@ var _ = bytes.Equal
 // importErrClass gives import failures a stable name (error texts carry raw addresses).
 func importErrClass(s string) string {
 	for _, k := range []string{"invalid bls pubkey length", "invalid bls pubkey hash length", "invalid deposit tax", "MaxDepositTax is too large", "duplicated vote key", "missing proposer", "voter should not be a proposer",
-		"invalid block hash length", "doesn't exists", "validator set", "duplicated voter"} {
+		"duplicated deposit", "invalid block hash length", "doesn't exists", "validator set", "duplicated voter"} {
 		if bytes.Contains([]byte(s), []byte(k)) {
 			return k
 		}
